@@ -457,6 +457,8 @@ def classify(prog):
                 ex.features.add('named')
             if tm.name.startswith('_'):
                 ex.features.add('underscore')
+        if s.lhs.name in lhs_defs and render_eq(s, 'code') in lhs_defs[s.lhs.name]:
+            ex.features.add('double-identical')
         lhs_defs.setdefault(s.lhs.name, set()).add(render_eq(s, 'code'))
         for n in s.rhs.walk():
             if isinstance(n, Call):
